@@ -1,6 +1,7 @@
 SPECIFICATION Spec
 CONSTANTS
   DevDefaultFloor = {}
+  DevSwallowKeyFault = {}
 INVARIANT NoOldVersion
 INVARIANT PlaintextGetsNothing
 INVARIANT ModernAccepted
